@@ -50,6 +50,11 @@ package ice
 
 //@ func (*controllingSelector).HandleSuccessResponse
 //@   props C03 C02 C20
+//@   ghostvar mustSwitch bool = false
+//@   ghostvar target int = 0
+//@   site store state#1 ghost target := pair
+//@   site store state#1 ghost mustSwitch := pendingRequest.isUseCandidate && (pendingRequest.nominationValue != nil || s.agent.getSelectedPair() == nil)
+//@   ensures C20 confirmed-nomination-is-selected: mustSwitch ==> s.agent.getSelectedPair() == cast(target, *CandidatePair)
 //@   site call handleInboundBindingSuccess#1 ghost s.agent.gTxOK := result0
 //@   site call responseSymmetric#1 assert C02 symmetric-check-after-transaction: s.agent.gTxOK && arg0 == pendingRequest
 //@   site call responseSymmetric#1 ghost s.agent.gSymOK := result
@@ -105,7 +110,7 @@ package ice
 //@ enumerate C03 stores ice.CandidatePair.state in (*controllingSelector).HandleSuccessResponse, (*controlledSelector).HandleSuccessResponse, (*controlledSelector).HandleBindingRequest, (*Agent).handleBindingRequestWithCustomHandler, replacePairRemote, (*Agent).pingAllCandidates, (*Agent).keepAliveCandidatesForRenomination, (*Agent).addPair, newCandidatePair
 //@ enumerate C03 calls ice.UseCandidate in (*controllingSelector).nominatePair, (*Agent).sendNominationRequest
 //@ enumerate C03 calls ice.(*controllingSelector).nominatePair in (*controllingSelector).ContactCandidates, (*controllingSelector).HandleBindingRequest
-//@ enumerate C03 calls ice.(*Agent).sendNominationRequest in (*Agent).RenominateCandidate
+//@ enumerate C03 calls ice.(*Agent).sendNominationRequest in (*Agent).renominateCandidate
 
 //@ func (*Agent).findPair
 //@   props C03 C06
